@@ -45,6 +45,11 @@ pub struct Case {
     /// non-empty file entry before extraction
     #[serde(default)]
     damage: Option<(u16, u32, bool)>,
+    /// how the reader handed to the extractor behaves: (largest read it serves, 0 = unlimited; every n-th
+    /// read call first reports `Interrupted`, 0 = never). Interrupted is only injected where no entry is
+    /// abandoned half-read (the streaming reader's drop-time skip panics on any reader error by design)
+    #[serde(default)]
+    io: (usize, usize),
 }
 
 /// The worker's working directory is parked (once) in /var/tmp/zv-c07-cwd-<pid>/a/b so that relative
@@ -182,11 +187,15 @@ fn check(c: &Case, info: &mut Info) -> Result<(), String> {
         } else {
             target.clone()
         };
+        let intr = if c.stream && (!c.safe || c.damage.is_some()) { 0 } else { c.io.1 };
+        let rd = crate::sio::ChunkReader::new(Cursor::new(&b.bytes[..]), if c.io.0 == 0 { vec![] } else { vec![c.io.0] }, vec![]).with_interrupts(intr);
+        info.label_if(c.io.0 > 0, "short-reading source");
+        info.label_if(intr > 0, "source reports Interrupted");
         let res = catch(|| {
             if c.stream {
-                zip::unstable::stream::ZipStreamReader::new(Cursor::new(&b.bytes[..])).extract(&given)
+                zip::unstable::stream::ZipStreamReader::new(rd).extract(&given)
             } else {
-                zip::ZipArchive::new(Cursor::new(&b.bytes[..])).and_then(|mut z| z.extract(&given))
+                zip::ZipArchive::new(rd).and_then(|mut z| z.extract(&given))
             }
         });
         // nothing may appear below the parked working directory either
@@ -450,8 +459,9 @@ pub fn run(ctx: &mut Ctx) {
             let shuf = || prop_oneof![2 => Just(None), 1 => any::<u64>().prop_map(Some)];
             let rel = || prop_oneof![3 => Just(false), 1 => Just(true)];
             let dmg = || prop_oneof![3 => Just(None), 1 => (any::<u16>(), any::<u32>(), any::<bool>()).prop_map(Some)];
-            let safe = (safe_case(), any::<bool>(), shuf(), rel(), dmg()).prop_map(|(entries, stream, central_shuffle, rel_target, damage)| Case { entries, safe: true, stream, central_shuffle, rel_target, damage });
-            let hostile = (safe_case(), proptest::collection::vec((hostile_name(canary), any::<bool>(), any::<bool>(), 0u32..512, crate::refzip::content::content(300)), 1..4), any::<u16>(), any::<bool>(), shuf(), rel()).prop_map(|(mut entries, hs, at, stream, central_shuffle, rel_target)| {
+            let io = || (prop_oneof![3 => Just(0usize), 1 => Just(1usize), 1 => Just(7usize), 1 => 2usize..5000], prop_oneof![3 => Just(0usize), 1 => 1usize..4, 1 => 4usize..40]);
+            let safe = (safe_case(), any::<bool>(), shuf(), rel(), dmg(), io()).prop_map(|(entries, stream, central_shuffle, rel_target, damage, io)| Case { entries, safe: true, stream, central_shuffle, rel_target, damage, io });
+            let hostile = (safe_case(), proptest::collection::vec((hostile_name(canary), any::<bool>(), any::<bool>(), 0u32..512, crate::refzip::content::content(300)), 1..4), any::<u16>(), any::<bool>(), shuf(), rel(), io()).prop_map(|(mut entries, hs, at, stream, central_shuffle, rel_target, io)| {
                 for (i, (name, dir, sym, mode, content)) in hs.into_iter().enumerate() {
                     let pos = ((at as usize + i * 7919) * (entries.len() + 1)) >> 16;
                     entries.insert(pos.min(entries.len()), Ent { name, dir, symlink_typed: sym, mode, content, method: 0, attr_low: 0, dos_made: false });
@@ -461,7 +471,7 @@ pub fn run(ctx: &mut Ctx) {
                     let e = entries[0].clone();
                     entries.push(Ent { dir: !e.dir, ..e });
                 }
-                Case { entries, safe: false, stream, central_shuffle, rel_target, damage: None }
+                Case { entries, safe: false, stream, central_shuffle, rel_target, damage: None, io }
             });
             prop_oneof![1 => safe, 1 => hostile].boxed()
         },
